@@ -4,8 +4,11 @@ T="${1:-40}"; shift
 cd /verif || exit 2
 IDS="${@:-$(ls seeded)}"
 for m in $IDS; do
-  P=$(python3 -c "import json;print(json.load(open('seeded/$m/meta.json'))['property'])")
-  tools/try_mutation.sh /verif/seeded/$m/patch.diff $P $T > /tmp/regress_$m.log 2>&1
+  P=$(python3 -c "import json;j=json.load(open('seeded/$m/meta.json'));print(j.get('detected_by_check', j['property']))")
+  OBS=$(python3 -c "import json;print(json.load(open('seeded/$m/meta.json')).get('obsolete_after',''))")
+  if [ -n "$OBS" ]; then echo "$m obsolete after $OBS (see meta.json)"; continue; fi
+  PATCH=/verif/seeded/$m/patch.diff; [ -f /verif/seeded/$m/patch_for_9f32686.diff ] && PATCH=/verif/seeded/$m/patch_for_9f32686.diff
+  tools/try_mutation.sh $PATCH $P $T > /tmp/regress_$m.log 2>&1
   rc=$?
   if [ $rc -eq 1 ]; then echo "$m caught $(grep -m1 'oracle=' /tmp/regress_$m.log | sed 's/^ *[0-9]* *//' | cut -c1-120)"; else echo "$m MISSED rc=$rc $(tail -1 /tmp/regress_$m.log | cut -c1-160)"; fi
 done
